@@ -630,8 +630,10 @@ def ask(srv: Server, program: bytes, uid: bool):
     return (t.cond if t else None), ids, out
 
 
-def classify(tr, uid: bool, cond, ids):
-    """-> ('ok', detail) | ('dev', frozenset(names)) | ('bad', signature, what)"""
+def classify(tr, uid: bool, cond, ids, open_known=None):
+    """-> ('ok', detail) | ('dev', frozenset(names)) | ('bad', signature, what)
+    When the answer is what several sets of deviations predict, one whose
+    members are all open known findings is preferred (smallest first)."""
     exp = tr['exp']['uid' if uid else 'seq']
     alts = exp['alts']
     if cond == b'BAD':
@@ -647,9 +649,14 @@ def classify(tr, uid: bool, cond, ids):
     if got in alts:
         return ('ok', 'match')
     dev = exp['dev'] if isinstance(exp['dev'], dict) else {}
-    for names in sorted(dev, key=lambda d: (len(d), sorted(d))):
-        if got in dev[names]:
-            return ('dev', frozenset(names))
+    cands = [frozenset(n) for n in sorted(dev, key=lambda d: (len(d), sorted(d)))
+             if got in dev[n]]
+    if cands:
+        if open_known is not None:
+            for names in cands:
+                if all(n in open_known for n in names):
+                    return ('dev', names)
+        return ('dev', cands[0])
     ideal = min(alts, key=lambda a: (len(a ^ got), sorted(a)))
     extra, missing = sorted(got - ideal), sorted(ideal - got)
     kind = ('Extra' if extra else '') + ('Missing' if missing else '')
@@ -737,9 +744,10 @@ def execute_mailbox(run: Run, stats: dict, mbid, mbox, triples, rng, corrupt=Non
                 except rp.Malformed as exc:
                     run.drift.append({'malformed': str(exc), 'program': prog.decode('latin-1')})
                     continue
-                verdict = classify(tr, uid, cond, ids)
+                verdict = classify(tr, uid, cond, ids, run.known.open)
                 if corrupt is not None and corrupt(tr, uid):
-                    verdict = classify(dict(tr, exp=corrupt_exp(tr['exp'])), uid, cond, ids)
+                    verdict = classify(dict(tr, exp=corrupt_exp(tr['exp'])), uid, cond, ids,
+                                       run.known.open)
                 stats['asked'] += 1
                 stats['uid' if uid else 'seq'] += 1
                 if hidden:
@@ -820,7 +828,7 @@ def late_arrival(run: Run, stats: dict, mbid, mbox, triples, rng,
         run_build(srv, conc, script)
         prog = conc.program(tr['key'])
         cond, ids, raw = ask(srv, prog, False)
-        verdict = classify(tr, False, cond, ids)
+        verdict = classify(tr, False, cond, ids, run.known.open)
         stats['late_arrival'] = stats.get('late_arrival', 0) + 1
         run.count_exec((mbid, tr['ktext'], 'late'), nontrivial=True)
         if verdict[0] == 'ok' or (verdict[0] == 'dev'
